@@ -196,7 +196,9 @@ bool ProcCtx::sleepUs(uint64_t us) {
 bool ProcCtx::write(int fd, const std::string& data, size_t chunk) {
   size_t off = 0;
   Proc* p = proc;
+  lastAccepted = 0;
   while (off < data.size()) {
+    lastAccepted = off;
     if (!alive()) return false;
     auto it = p->fds.find(fd);
     if (it == p->fds.end()) return true; // EBADF: ignored by the simulated program
@@ -228,7 +230,9 @@ bool ProcCtx::write(int fd, const std::string& data, size_t chunk) {
     pipe->buf.append(data, off, n);
     g_stats.bytesPiped += n;
     off += n;
+    lastAccepted = off;
   }
+  lastAccepted = data.size();
   return true;
 }
 
@@ -314,7 +318,7 @@ int __wrap_poll(struct pollfd* pf, nfds_t n, int timeout) {
   bool onlyIgnoredHup = ready > 0;
   for (nfds_t i = 0; i < n; i++)
     if (pf[i].revents && !(pf[i].revents == POLLHUP && pf[i].events == 0)) onlyIgnoredHup = false;
-  if (onlyIgnoredHup) sim::advance_ns(1000000);
+  if (onlyIgnoredHup) sim::sleep_ns(20000000);
   return ready;
 }
 
